@@ -132,6 +132,19 @@ def gen_cases(chk):
             for cfg in ("szMode=SZ_BEST_SPEED;withLinearRegression=NO", "szMode=SZ_BEST_SPEED", "withLinearRegression=NO"):
                 for mode, absb, rel in ((0, 1e-6 if ty == 0 else 1e-15, 1e-3), (1, 1.0, 1e-8 if ty == 0 else 1e-17)):
                     orc.append("rt %x %s %s %x %s %s 0 %s g:3:%x:%x:%s:%s" % (ty, tup5(t), tup5(t), mode, dbits(absb), dbits(rel), cfg, rng.getrandbits(24), n, dbits(100.0), dbits(100.0)))
+    # a dominant background value with isolated dips and spikes of 1..70 bounds (data kind 8, bound = one unit): the dense-value (mean) mode
+    # of the regression kernels and the quantisation codes next to the edges of the code range
+    for t in ((24, 24, 24), (36, 48), (4, 6, 12, 12), (5000,)):
+        n = 1
+        for v in t:
+            n *= v
+        for ty in (0, 1):
+            for cfg in ("-", "szMode=SZ_BEST_SPEED", "szMode=SZ_BEST_SPEED;withLinearRegression=NO"):
+                for scale in (1.0, 1e-3):
+                    for dens in ((1500, 300) if not thorough else (3000, 1500, 600, 300, 50)):
+                        stride = n // t[0] if len(t) > 1 else 0
+                        orc.append("rt %x %s %s 0 %s %s 0 %s g:8:%x:%x:%s:%s" % (ty, tup5(t), tup5(t), dbits(scale), dbits(1e-3), cfg, rng.getrandbits(24), n, dbits(scale),
+                                                                                 dbits(float(dens * 1048576 + stride))))
     # bounds and ranges beyond what a float can carry (double data, the combined modes use min/max of two doubles)
     for t in ((500,), (24, 40)):
         n = 1
